@@ -711,15 +711,22 @@ def tensor_merge(arr: ndarray, ins: ndarray, pos: Sequence[int],
     ins_chars = string.ascii_letters[:ins_ndim*rank]
     arr_chars = string.ascii_letters[ins_ndim*rank:(ins_ndim+arr_ndim)*rank]
     out_chars = ''
+    # Normalize negative positions before sorting, otherwise mixed-sign positions are
+    # inserted in the wrong order
+    normalized_pos = []
+    for p in pos:
+        if p != arr_ndim:
+            div, p_norm = divmod(p, arr_ndim)
+            if div not in (-1, 0):
+                raise IndexError(f'Invalid position {p} specified. Must be between '
+                                 + f'-{arr_ndim} and {arr_ndim}.')
+            p = p_norm
+        normalized_pos.append(p)
+
     for r in range(rank):
         arr_part = arr_chars[r*arr_ndim:(r+1)*arr_ndim]
         ins_part = ins_chars[r*ins_ndim:(r+1)*ins_ndim]
-        for i, (p, ins_p) in enumerate(sorted(zip(pos, ins_part))):
-            if p != arr_ndim:
-                div, p = divmod(p, arr_ndim)
-                if div not in (-1, 0):
-                    raise IndexError(f'Invalid position {pos[i]} specified. Must be between '
-                                     + f'-{arr_ndim} and {arr_ndim}.')
+        for i, (p, ins_p) in enumerate(sorted(zip(normalized_pos, ins_part))):
             arr_part = arr_part[:p+i] + ins_p + arr_part[p+i:]
 
         out_chars += arr_part
